@@ -1,7 +1,10 @@
 #!/bin/bash
-# Offline setup: nothing to download or compile for the Python explorers.
-# The C++ spec front end (C14) is rebuilt on demand by the check itself from /repo's sources.
+# Offline setup: nothing is downloaded. Verifies the binding to /repo/src, runs the reference models'
+# self-test, and pre-builds the C++ spec front end (C14) from /repo's current sources into /verif/.cache.
 set -e
 cd "$(dirname "$0")"
 mkdir -p evidence replays
+export PYTHONHASHSEED=0 PYTHONDONTWRITEBYTECODE=1
 /venv/bin/python -c "import sys; sys.path.insert(0,'/verif'); import mc.fd; print('fandango bound to', mc.fd.fandango.__file__)"
+/venv/bin/python tests/selftest.py
+tools/build_cpp.sh >/dev/null && echo "C++ front end built/cached"
